@@ -26,7 +26,7 @@ func retained(ep, c0, e1, c1, e2 int) bool {
 	return ep > e2-c1
 }
 
-// C08: count c0 (param) set at epoch 0, t0 ticks (param), resize to a symbolic count, t1 ticks (param),
+// C08: count c0 (param) set at epoch 0, t0 ticks (param), resize to a symbolic count 0..param 3, t1 ticks (param),
 // then symbolic queries through snapshot / snapshotByEpoch / listNodes.
 func VerifC08Resize() {
 	c0, t0, t1 := vParam(0), vParam(1), vParam(2)
@@ -41,7 +41,8 @@ func VerifC08Resize() {
 		vAssume(publish(e))
 	}
 	c1 := vInt("count")
-	vAssume(c1 >= 0 && c1 <= 6)
+	cmax := vParam(3)
+	vAssume(c1 >= 0 && c1 <= cmax)
 	if !alpha("updateSnapshotCount", c1) {
 		vCover("resize-refused")
 		// a refused resize changes nothing: the current map is still the one of epoch t0
@@ -70,7 +71,7 @@ func VerifC08Resize() {
 
 	// snapshot(d)
 	d := vInt("d")
-	vAssume(d >= -1 && d <= 7)
+	vAssume(d >= -1 && d <= cmax+1)
 	okq, res := vRead("netmap", "snapshot", d)
 	ep := e2 - d
 	got, n := -1, 0
